@@ -105,6 +105,8 @@ Seeds == {Un(<<Leaf("int"), Leaf("str")>>), Un(<<Leaf("int"), Leaf("None")>>), U
           Un(<<H("list", <<Lit(<<"s_1">>)>>, <<>>), H("list", <<Lit(<<"i1">>)>>, <<>>)>>),
           Un(<<H("dict", <<Leaf("str"), Lit(<<"i1">>)>>, <<>>), H("dict", <<Leaf("str"), Lit(<<"s_1">>)>>, <<>>), Leaf("None")>>),
           Un(<<Lit(<<"none", "s_a">>), Lit(<<"s_b">>)>>), Un(<<H("dict", <<Leaf("str"), Leaf("int")>>, <<>>), H("dict", <<Leaf("str"), Leaf("str")>>, <<>>)>>),
+          \* distinct classes / enum members that print alike (two classes of one name): the canonical order may not depend on the spelling
+          Un(<<Leaf("X1"), Leaf("X2")>>), Un(<<H("list", <<Leaf("X1")>>, <<>>), H("list", <<Leaf("X2")>>, <<>>), Leaf("None")>>), Lit(<<"ex1", "ex2">>),
           \* members of one origin that share a generic leading argument (which can be respelled on one side only) and differ behind it
           Un(<<H("tuple", <<H("list", <<Leaf("int")>>, <<>>), Leaf("int")>>, <<>>), H("tuple", <<H("list", <<Leaf("int")>>, <<>>), Leaf("str")>>, <<>>)>>),
           Un(<<H("dict", <<H("optional", <<Leaf("int")>>, <<>>), Leaf("str")>>, <<>>), H("dict", <<H("optional", <<Leaf("int")>>, <<>>), Leaf("bytes")>>, <<>>)>>)}
